@@ -31,9 +31,10 @@ def check(prop, tier, cap, only=None, procs=None, list_only=False, t0=None):
     bounds = {
         "widths_ast": [1, 8, 32, 64] if quick else [1, 2, 3, 4, 8, 16, 32, 64, 128],
         "shapes": "rule-targeted seeds (one or more per simplifier branch) + all depth-1 trees + depth-2 compositions "
-                  + ("over the ops that have simplifiers at widths 8,32" if quick else "over all ops at widths 4,8,32,64"),
+                  + ("over the ops that have simplifiers at width 8" if quick else "over all ops at widths 4,8,32,64"),
         "heavy_arith_max_width": 8 if quick else 16,
-        "path_budget_per_shape": 1500 if quick else 6000,
+        "path_budget_per_shape": 400 if quick else 6000,
+        "wall_cap_per_obligation_s": cap,
         "solver_cap_ms": 20000 if quick else 120000,
         "outside": "trees deeper than the grammar/seeds, widths not listed, symbolic x symbolic mul/div above the heavy width",
     }
